@@ -732,3 +732,64 @@ class Gen:
 
     def gc(self):
         self.emit({"k": "gc"})
+
+
+    # ------------------------------------------------------------------ nnet layers (tiny shapes)
+    def nnet(self, layer=None):
+        layers = ["softmax", "logsoftmax", "softmax_crossentropy", "softmax_focal_loss", "focal_loss", "margin_ranking_loss", "conv_nd", "max_pool", "batchnorm", "gru"]
+        layer = layer or self.choice(layers)
+        r = self.r
+        dt = self.choice([d for d in self.dtypes if d.startswith("f")] or ["f8"])
+
+        def L(shape, positive=False):
+            return {"t": self.leaf(shape=shape, dtype=dt, constant=None, positive=positive)}
+
+        p = {}
+        N, C = r.randint(1, 3), r.randint(2, 3)
+        if layer in ("softmax", "logsoftmax"):
+            args = [L((N, C))]
+            p = {"axis": self.choice([-1, 0, 1])}
+            shape = (N, C)
+        elif layer in ("softmax_crossentropy", "softmax_focal_loss"):
+            args = [L((N, C)), {"n": enc_arr(np.array([r.randrange(C) for _ in range(N)], dtype=np.int64))}]
+            if layer == "softmax_focal_loss":
+                p = {"alpha": 1, "gamma": self.choice([0, 1, 2])}
+            shape = () if layer == "softmax_crossentropy" else (N,)
+        elif layer == "focal_loss":
+            probs = np.array([[r.uniform(0.1, 1) for _ in range(C)] for _ in range(N)])
+            probs = probs / probs.sum(axis=1, keepdims=True)
+            h = self.new_h()
+            self.emit({"k": "leaf", "out": h, "arr": enc_arr(probs.astype(_DTYPES[dt])), "constant": None})
+            self.fam_id += 1
+            self.t[h] = G(probs.astype(_DTYPES[dt]), False, self.epoch, self.fam_id)
+            args = [{"t": h}, {"n": enc_arr(np.array([r.randrange(C) for _ in range(N)], dtype=np.int64))}]
+            p = {"alpha": 1, "gamma": self.choice([0, 1, 2])}
+            shape = (N,)
+        elif layer == "margin_ranking_loss":
+            args = [L((N,)), L((N,)), {"n": enc_arr(np.array([self.choice([-1, 1]) for _ in range(N)], dtype=np.int64))}]
+            p = {"margin": 0.5}
+            shape = ()
+        elif layer == "conv_nd":
+            Cin, F, Lx = r.randint(1, 2), r.randint(1, 2), r.randint(3, 4)
+            args = [L((N, Cin, Lx)), L((F, Cin, 2))]
+            p = {"stride": 1}
+            shape = (N, F, Lx - 1)
+        elif layer == "max_pool":
+            args = [L((1, r.randint(1, 2), 4))]
+            p = {"pool": [2], "stride": 2}
+            shape = args and (1, self.t[args[0]["t"]].val.shape[1], 2)
+        elif layer == "batchnorm":
+            args = [L((r.randint(2, 3), C)), L((C,)), L((C,))]
+            shape = self.t[args[0]["t"]].val.shape
+        else:  # gru
+            T, D = r.randint(2, 3), 2
+            args = [L((T, N, C))]
+            for _ in range(3):
+                args += [L((C, D)), L((D, D)), L((D,))]
+            p = {"bp_lim": None}
+            shape = (T + 1, N, D)
+        h = self.new_h()
+        self.emit({"k": "nnet", "layer": layer, "out": h, "args": args, "p": p})
+        self.fam_id += 1
+        self.t[h] = G(np.zeros(shape, dtype=_DTYPES[dt]) + 0.5, False, self.epoch, self.fam_id, depth=3)
+        return h
